@@ -230,6 +230,7 @@ type Counter struct {
 	Ssid    Ssid
 	Channel []byte
 	Counter int
+	next    *Counter // The next counter with the same hash code (a different ssid).
 }
 
 // NewCounters creates a new container.
@@ -268,14 +269,27 @@ func (s *Counters) Decrement(ssid Ssid) (last bool) {
 	defer s.Unlock()
 
 	key := ssid.GetHashCode()
-	if m, exists := s.m[key]; exists {
+	var prev *Counter
+	for m := s.m[key]; m != nil; prev, m = m, m.next {
+		if !ssidEqual(m.Ssid, ssid) {
+			continue // A different ssid with the same hash code
+		}
+
 		m.Counter--
 
 		// Remove if there's no subscribers left
 		if m.Counter <= 0 {
-			delete(s.m, ssid.GetHashCode())
+			switch {
+			case prev != nil:
+				prev.next = m.next
+			case m.next != nil:
+				s.m[key] = m.next
+			default:
+				delete(s.m, key)
+			}
 			return true
 		}
+		break
 	}
 
 	return false
@@ -287,8 +301,12 @@ func (s *Counters) All() []Counter {
 	defer s.Unlock()
 
 	clone := make([]Counter, 0, len(s.m))
-	for _, m := range s.m {
-		clone = append(clone, *m)
+	for _, head := range s.m {
+		for m := head; m != nil; m = m.next {
+			c := *m
+			c.next = nil
+			clone = append(clone, c)
+		}
 	}
 
 	return clone
@@ -297,8 +315,11 @@ func (s *Counters) All() []Counter {
 // getOrCreate retrieves a single subscription meter or creates a new one.
 func (s *Counters) getOrCreate(ssid Ssid, channel []byte) (meter *Counter) {
 	key := ssid.GetHashCode()
-	if m, exists := s.m[key]; exists {
-		return m
+	var last *Counter
+	for m := s.m[key]; m != nil; last, m = m, m.next {
+		if ssidEqual(m.Ssid, ssid) {
+			return m
+		}
 	}
 
 	meter = &Counter{
@@ -306,6 +327,26 @@ func (s *Counters) getOrCreate(ssid Ssid, channel []byte) (meter *Counter) {
 		Channel: channel,
 		Counter: 0,
 	}
-	s.m[key] = meter
+
+	// Different ssids may share a hash code (e.g. a/b/ and b/a/), chain them
+	if last != nil {
+		last.next = meter
+	} else {
+		s.m[key] = meter
+	}
 	return
+}
+
+// ssidEqual checks whether two ssids are the same.
+func ssidEqual(a, b Ssid) bool {
+	if len(a) != len(b) {
+		return false
+	}
+
+	for i := range a {
+		if a[i] != b[i] {
+			return false
+		}
+	}
+	return true
 }
